@@ -23,13 +23,14 @@ from google.protobuf import (empty_pb2, descriptor_pb2, duration_pb2, any_pb2, t
                              field_mask_pb2, struct_pb2, wrappers_pb2)
 from google.longrunning import operations_pb2
 from google.rpc import status_pb2
+from google.cloud import extended_operations_pb2 as ex_ops_pb2
 
 T = d.FieldDescriptorProto
 
 DEP_MODS = [descriptor_pb2, any_pb2, duration_pb2, empty_pb2, timestamp_pb2, field_mask_pb2,
             struct_pb2, wrappers_pb2, status_pb2, launch_stage_pb2, http_pb2, annotations_pb2,
             client_pb2, resource_pb2, field_behavior_pb2, field_info_pb2, routing_pb2,
-            operations_pb2]
+            operations_pb2, ex_ops_pb2]
 
 
 def _fdp(mod):
